@@ -1099,6 +1099,13 @@ fn parse_deflocalkeys(
                 })?,
             None => bail_expr!(key_expr, "Key without a number in {def_local_keys_variant}"),
         };
+        if usize::from(osc.as_u16()) >= KEYS_IN_ROW {
+            // Layers have KEYS_IN_ROW columns; a larger code cannot be mapped.
+            bail_expr!(
+                key_expr,
+                "Number for {key} in {def_local_keys_variant} must be less than {KEYS_IN_ROW}"
+            );
+        }
         log::debug!("custom mapping: {key} {}", osc.as_u16());
         localkeys.insert(key.to_owned(), osc);
     }
